@@ -140,6 +140,12 @@ impl Http3Codec {
                 self.notify_writable_streams(streams);
                 Ok(None)
             }
+            QuicSocketEvent::Finished(stream_id) => {
+                // wake the reader up, it reports the end of the stream; the stream may be
+                // gone already if the response has been completed before
+                let _ = self.on_stream_readable(stream_id);
+                Ok(None)
+            }
             QuicSocketEvent::Close(stream_id) => {
                 let _ = self.on_stream_shutdown(stream_id, None);
                 Ok(None)
